@@ -353,3 +353,81 @@ func VerifH_C06_AbandonedThenLateReply() { vAbandonedThenLateReply() }
 // VerifH_C04_AbandonedThenLateReply: the same scenario under the no-mix-up property: on transports that demultiplex by
 // connection, handing a connection with a reply owed to the next query gives that query another query's answer.
 func VerifH_C04_AbandonedThenLateReply() { vAbandonedThenLateReply() }
+
+// VerifH_C06_FailedConnNeverHandedOver: "offered for reuse only after the complete reply … has been consumed without
+// error" — by ANY route, not only through the idle pool. Exchange A runs on connection 1, whose server is slow; exchange
+// B starts meanwhile, finds nothing idle and waits for its own (slow) dial. A's response deadline strikes (its reply is
+// still owed and arrives later on the open connection); then B's dial completes. Whatever shortcuts exist between a
+// finishing exchange and a waiting one: B's query never goes out on the connection that still owes A's reply, and B
+// gets the reply to its own query (≤ 2 scheduling deviations).
+func VerifH_C06_FailedConnNeverHandedOver() {
+	verifrt.Expect("b-returned")
+	verifrt.Unwind(160)
+	verifrt.SchedBound(2 + verifrt.Tier)
+	verifrt.NoTimers()
+	verifrt.CtxNoExpiry = true
+	base := time.Unix(1700000000, 0)
+	offset := time.Duration(0)
+	verifrt.Redirect("time.Now", func() time.Time { return base.Add(offset) })
+	late, gate := make(chan struct{}), make(chan struct{})
+	var conns []*vNetConn
+	t := NewReuseConnTransport(ReuseConnOpts{DialContext: func(ctx context.Context) (net.Conn, error) {
+		first := len(conns) == 0
+		if !first {
+			select {
+			case <-gate: // the second dial is slow
+			case <-ctx.Done():
+				return nil, errVConn
+			}
+		}
+		c := newVNetConn()
+		c.checkClean = true
+		c.clocked = true // deadlines are instants on the harness clock
+		conns = append(conns, c)
+		go func() {
+			held := first
+			for {
+				var q []byte
+				select {
+				case q = <-c.outbox:
+				case <-c.closedCh:
+					return
+				}
+				if len(q) < 14 {
+					continue
+				}
+				if held {
+					held = false
+					select {
+					case <-late:
+					case <-c.closedCh:
+						return
+					}
+				}
+				c.inbox <- []byte{0, 12, q[2], q[3], 0x80, q[5] & 0xF, 0, 0, 0, 0, 0, 0, 0, 0}
+			}
+		}()
+		return c, nil
+	}})
+	resA, resB := make(chan vExRes, 1), make(chan vExRes, 1)
+	go func() { r, err := t.ExchangeContext(context.Background(), vQuery12(0xA, 1)); resA <- vExRes{r, err} }()
+	verifrt.Quiesce() // A's query is on connection 1, the server is slow
+	go func() { r, err := t.ExchangeContext(context.Background(), vQuery12(0xB, 2)); resB <- vExRes{r, err} }()
+	verifrt.Quiesce() // B waits for its dial
+	offset = 7 * time.Second // the 6 s response time-out of exchange A is over
+	conns[0].Tick()
+	a := <-resA
+	verifrt.Reach("a-returned")
+	verifrt.Assert(a.m == nil && a.err != nil, "exchange A fails on its response time-out")
+	verifrt.Quiesce()
+	go func() { close(late) }()
+	go func() { close(gate) }()
+	b := <-resB
+	verifrt.Reach("b-returned")
+	if b.err == nil {
+		verifrt.Assert(b.m.Header.ID == 0xB && b.m.Header.RCode == 2, "exchange B gets the reply to its own query")
+	}
+	for _, c := range conns {
+		verifrt.Assert(!c.violated, "a connection never carries a second query before the previous reply was consumed")
+	}
+}
